@@ -30,6 +30,21 @@ WHY = {
     ("regex::Regex::do_check_ambiguous_inputs_tail_only_subword", "filter", "endmarker_position"): "the end marker is not an input: reaching it after a placeholder is exactly the allowed `last item of the word` case",
     ("regex::Regex::do_check_ambiguous_inputs_tail_only_subword", "continue^0", "param#4.contains"): "position already visited on this walk",
     ("regex::Regex::do_check_ambiguous_inputs_tail_only_subword", "continue^0", "param#2.get("): "position without followers",
+    # ---- table printers (C04; bash ones also C01 / C12 / C17)
+    ("bash::write_completion_script", "return-ok", "!= elem"): "chunk_by closure: different shape hashes are never grouped (isomorphic_to decides the rest, ISOCOV)",
+    ("fish::write_completion_script", "return-ok", "!= elem"): "chunk_by closure: different shape hashes are never grouped (isomorphic_to decides the rest, ISOCOV)",
+    ("zsh::write_completion_script", "return-ok", "!= elem"): "chunk_by closure: different shape hashes are never grouped (isomorphic_to decides the rest, ISOCOV)",
+    ("pwsh::write_completion_script", "return-ok", "!= elem"): "chunk_by closure: different shape hashes are never grouped (isomorphic_to decides the rest, ISOCOV)",
+    ("bash::write_completion_script", "continue^0", "get_subword_transitions_from"): "a state without within-word transitions gets no row; the reader tests the row with -v before use",
+    ("fish::write_completion_script", "continue^0", "get_subword_transitions_from"): "a state without within-word transitions gets no row; the reader tests the row before use",
+    ("zsh::write_completion_script", "continue^0", "get_subword_transitions_from"): "a state without within-word transitions gets no row; the reader tests the row with -v before use",
+    ("fish::write_literals", "filter", "is_empty()"): "only non-empty descriptions enter the description set",
+    ("fish::write_literals", "continue^0", "is_empty()"): "the dummy 0th element (fish arrays start at 1) is not printed",
+    ("fish::write_literals", "filter", "> '0'"): "literals without a description (index 0 = dummy) get no description id",
+    ("fish::write_matching_tables", "continue^0", "param#1.literal.get("): "states without literal transitions leave their slot of the positional fish list empty (the list is indexed by state)",
+    ("pwsh::write_literals", "filter", "is_empty()"): "only literals that have a description get a row in $descriptions (keyed by literal id)",
+    ("zsh::write_literals", "filter", "is_empty()"): "only non-empty descriptions enter the description set",
+    ("zsh::write_literals", "continue^0", "is_empty()"): "defensive: the set holds no empty description",
     # ---- algorithmic cores (C03 / C02)
     ("dfa::DFA::make_transitions_image", "continue^0", ".contains(elem[param#0.inputs.ids()])"): "dead-state completion adds a transition only for (state, input) pairs that have none",
     ("dfa::DFA::make_transitions_image", "dedup", "()"): "sorted image: duplicates (none are produced) would be harmless to drop",
